@@ -133,9 +133,9 @@ impl EXD {
         row_offset: u32,
         column: &ExcelColumnDefinition,
     ) -> Option<ColumnData> {
-        let mut read_packed_bool = |shift: i32| -> bool {
+        let mut read_packed_bool = |shift: u8| -> bool {
             let bit = 1 << shift;
-            let bool_data: i32 = Self::read_data_raw(cursor).unwrap_or(0);
+            let bool_data: u8 = Self::read_data_raw(cursor).unwrap_or(0);
 
             (bool_data & bit) == bit
         };
@@ -162,7 +162,7 @@ impl EXD {
             }
             ColumnDataType::Bool => {
                 // FIXME: i believe Bool is int8?
-                let bool_data: i32 = Self::read_data_raw(cursor).unwrap();
+                let bool_data: u8 = Self::read_data_raw(cursor).unwrap();
 
                 Some(ColumnData::Bool(bool_data == 1))
             }
